@@ -8,7 +8,7 @@
     statement boundary of every run of every accepted program, under any collection schedule: so the two "exact" theorems
     apply at top level as well (C03_break_exact_at_top_level). *)
 From Pakhi Require Import Base Float64 Syntax Tables Lexer Parser Interp.
-From Pakhi.Proofs Require Import Scope Control WF WFOps Frames FrameInv NoPanic ParseOk TopLevel.
+From Pakhi.Proofs Require Import Scope Control WF WFOps Frames FrameInv NoPanic ParseOk TopLevel ChainWalk Shape BlockRun.
 Local Open Scope nat_scope.
 
 (* every run, observed with any fuel (= at every statement boundary), is well formed and satisfies the frame invariant of
@@ -107,3 +107,25 @@ Theorem C03_skip_block_keeps_depth : forall code m pc pc', skip_block_from code 
   (forall k, pc <= k -> k <= pc' -> (sd code pc <= sd code k)%Z).
 Proof. exact skip_from_sd. Qed.
 Print Assumptions C03_skip_block_keeps_depth.
+
+(** what one statement does to the position and the loop stack: one of five shapes -- forward without passing a
+    shallower position, loop stack untouched (next statement; the jumps of a false condition, an else, a function
+    definition); a closing brace; entering a loop (its record pushed, body's opening brace next); the continue or the
+    break of exactly the innermost loop record.  Nothing else touches the loop stack. *)
+Theorem C03_one_statement_has_one_of_five_shapes : forall code, code_ok code -> forall fuel m m',
+  mwf code m -> interp code fuel m = Ok m' -> shape code m m'.
+Proof. exact step_shape. Qed.
+Print Assumptions C03_one_statement_has_one_of_five_shapes.
+
+(** a loop body runs alone, however deeply the break / continue is nested in it: from inside the body's block (a, z) the
+    machine stays inside -- its own nested loops come and go above the stack [L0] it entered with, whose top is this
+    loop's record -- until it arrives behind the closing brace (on the loop's closing continue) with stack [L0], or
+    stands at a break / continue with stack [L0]: that of this loop, C03_break_exact / C03_continue_exact apply *)
+Theorem C03_a_loop_body_runs_alone : forall code, code_ok code -> forall fuel F a z L0 outer,
+  frame_static code F -> region code a z -> L0 = outer ++ f_lower F ->
+  forall n m m', mwf code m -> finv code F m -> inblk a z L0 m -> steps code fuel n m = Ok m' ->
+  inblk a z L0 m' \/
+  exists k mk, k <= n /\ steps code fuel k m = Ok mk /\ left_block code a z L0 mk /\
+               forall j mj, j < k -> steps code fuel j m = Ok mj -> inblk a z L0 mj.
+Proof. exact block_run. Qed.
+Print Assumptions C03_a_loop_body_runs_alone.
